@@ -1,9 +1,21 @@
-"""Volume legs: one process evaluates a very large number of distinct inputs in a row (memo tables that overflow or evict,
-counters, anything that depends on how much the process has already decoded).  The whole run is one case, so a stored
-failing case replays with its history."""
+"""Volume legs: one process evaluates a very large number of distinct inputs in a row (memo tables that overflow, evict or recycle
+rows, counters, anything that depends on how much the process has already decoded).  The whole run is one case, so a stored
+failing case replays with its history.
+
+Besides the plain stream the run
+  * evaluates, for a sample of inputs, two *siblings* (the same pseudo-random words with the lowest bits of the first one changed:
+    for the step functions here that is the same payload under another carrier / type code / letter case),
+  * comes back to those sampled inputs (and their siblings) after 4100 ... 1 050 000 further distinct inputs - an identical string
+    decoded again at every distance at which a ring or an LRU of a plausible size (2^12 ... 2^20) has just recycled its entry,
+  * ends with four threads decoding unseen inputs concurrently (1 us switch interval) in the process that has seen all of the above.
+"""
+import sys
+import threading
+
 from vlib.core import Leg
 
 _M = (1 << 64) - 1
+DIST = [4100, 5000, 6000, 7000, 8100, 9000, 17000, 33000, 66000, 70000, 132000, 140000, 263000, 530000, 1050000, 1100000, 2100000]
 
 
 def stream(seed):
@@ -14,7 +26,7 @@ def stream(seed):
         yield y ^ (y >> 32)
 
 
-def leg(step, quick, thorough, doc, name="volume"):
+def leg(step, quick, thorough, doc, name="volume", finale=2000):
     """step(a, b, k) -> problem or None; a, b are fresh 64-bit pseudo-random words, k the running index."""
 
     def enum(ctx):
@@ -24,13 +36,61 @@ def leg(step, quick, thorough, doc, name="volume"):
 
     def chk(case, note):
         g = stream(case["seed"])
-        for k in range(case["n"]):
-            p = step(next(g), next(g), k)
+        n = case["n"]
+        due = {}          # index -> list of (a, b, k0) to evaluate again
+        revisits = 0
+        for k in range(n):
+            a, b = next(g), next(g)
+            p = step(a, b, k)
             if p:
                 return "%s (distinct input number %d evaluated by this process in this run)" % (p, k + 1)
-        note.evals = case["n"]
-        note.cls("volume-%d" % case["n"])
-        note.nt(True, key=["volume", case["n"], case["seed"]])
+            if k < 8 or k % 50000 == 0:
+                for sib in (a ^ 1, a ^ 2):
+                    p = step(sib, b, k)
+                    if p:
+                        return "%s (sibling of input number %d of this run)" % (p, k + 1)
+                for d in DIST:
+                    if k + d < n:
+                        due.setdefault(k + d, []).append((a, b, k))
+            for (a0, b0, k0) in due.pop(k, ()):
+                for a1 in (a0, a0 ^ 1, a0 ^ 2):
+                    revisits += 1
+                    p = step(a1, b0, k0)
+                    if p:
+                        return "%s (input number %d of this run evaluated again after %d further distinct inputs; it held the first time)" % (p, k0 + 1, k - k0)
+        # four concurrent callers on unseen inputs, in the process that has decoded all of the above
+        bad = []
+        if finale:
+            old = sys.getswitchinterval()
+
+            def work(t):
+                gt = stream(case["seed"] * 7919 + t + 1)
+                for j in range(finale):
+                    try:
+                        p = step(next(gt), next(gt), n + j)
+                    except Exception as e:  # noqa  (step functions catch the library's exceptions themselves)
+                        p = "harness: %r" % (e,)
+                    if p:
+                        bad.append("%s (one of four concurrent callers, after %d distinct inputs decoded sequentially by this process)" % (p, n))
+                        return
+                    if bad:
+                        return
+            ts = [threading.Thread(target=work, args=(t,)) for t in range(4)]
+            sys.setswitchinterval(1e-6)
+            try:
+                for t in ts:
+                    t.start()
+                for t in ts:
+                    t.join()
+            finally:
+                sys.setswitchinterval(old)
+            if bad:
+                return bad[0]
+        note.evals = n + revisits + 4 * finale
+        note.cls("volume-%d" % n)
+        note.nt(True, key=["volume", n, case["seed"]])
         return None
 
-    return Leg(name, chk, enum=enum, exhaustive=False, shards_quick=1, shards_thorough=2, doc=doc)
+    lg = Leg(name, chk, enum=enum, exhaustive=False, shards_quick=1, shards_thorough=2, doc=doc)
+    lg.opt = False   # not repeated in the python -O child run
+    return lg
